@@ -6,7 +6,7 @@ tvars == <<l, bad>>
 TInit == l = 1 /\ bad = <<>> /\ done = FALSE
 Ivals(x) == [i \in 1..Len(x) |-> <<x[i][1], x[i][2]>>]
 Guard(e) ==
-  CASE e.a = "Cube" -> Ivals(e.written) = CubeExpected(e.e, e.g) /\ e.wlok
+  CASE e.a = "Cube" -> Ivals(e.written) = CubeExpected(e.e, e.g) /\ e.wlok /\ e.panics = 0   \* WithLevel never panics or exits
     [] e.a = "Entry" -> LET lv == EntryLevel(e.entry) w == Written(lv, e.ll, e.gl) IN
                         /\ e.written = w /\ (w => e.wlevel = lv) /\ e.nwrites = (IF w THEN 1 ELSE 0)
                         /\ e.panicked = EntryPanics(e.entry)
